@@ -1,5 +1,5 @@
 SPECIFICATION Spec
 CONSTANTS Callers = {1, 2}  MaxGen = 4  MaxCalls = 6  MaxKill = 2  ReconnectWhenNil = TRUE  ClosedCheckLocked = TRUE
-  CloseDropped = TRUE  CheckClosedFlag = TRUE  LimitIsRecoverable = TRUE  GenHist = TRUE
+  DropOnlyOwn = TRUE  CloseDropped = TRUE  CheckClosedFlag = TRUE  LimitIsRecoverable = TRUE  GenHist = TRUE
 INVARIANT PrintScn
 CHECK_DEADLOCK FALSE
